@@ -684,7 +684,7 @@ fn judge(a: &Outcome, base: &Outcome, b: Option<&Disp>, r: &RefOut) -> (bool, St
                     fails.push((format!("rejected stream ({c}): dispatcher's own responses {:?}, want [{want}]", d.own_statuses), explain(cl, allowed)));
                 }
                 if !d.closed {
-                    fails.push(("rejected stream: connection not closed".into(), explain(cl, &["F3-empty-chunk-size"])));
+                    fails.push(("rejected stream: connection not closed".into(), explain(cl, &["F3-empty-chunk-size", "F19-head-in-band"])));
                 }
                 if d.dispatched > nref {
                     fails.push((
@@ -1121,7 +1121,11 @@ fn gen_case(rng: &mut Rng, thorough: bool) -> Case {
     let malformed = rng.chance(1, 4);
     let n = rng.range(1, 6) as usize;
     let bad_at = if malformed { rng.below(n as u64) as usize } else { usize::MAX };
-    let class = *rng.pick(MALFORMED);
+    let mut class = *rng.pick(MALFORMED);
+    // streams of >= 128 KiB are expensive to evaluate in Coq: fewer of them in the quick tier
+    if !thorough && class.starts_with("head_") && !rng.chance(1, 4) {
+        class = *rng.pick(&MALFORMED[..14]);
+    }
     let big = malformed && class.starts_with("head_");
     // runner B on a fraction of the cases; its requests before the last one must be "plain"
     let want_b = rng.chance(if thorough { 1 } else { 1 }, 3) && class != "head_in_band";
@@ -1151,10 +1155,12 @@ fn gen_case(rng: &mut Rng, thorough: bool) -> Case {
     let marks: Vec<usize> = b.marks.iter().copied().filter(|&m| m > 0 && m < len).collect();
     let seg = if len >= MAX_BUFFER_SIZE {
         // reads of at most HW_BUFFER_SIZE bytes, as the dispatcher's read loop bounds them
-        match rng.below(4) {
+        // (each read re-tokenizes the buffered head, in the model as in the code: large reads
+        // only in the quick tier)
+        match if thorough { rng.below(4) } else { rng.below(3) } {
             0 => Seg::Every(4096),
             1 => Seg::Every(8192),
-            2 => Seg::Every(*rng.pick(&[1000usize, 5000, 4095, 7777])),
+            2 => Seg::Every(*rng.pick(if thorough { &[1000usize, 5000, 4095, 7777][..] } else { &[5000usize, 7777][..] })),
             _ => {
                 let mut c: Vec<usize> = (1..=len / 4096).map(|i| i * 4096).collect();
                 for _ in 0..4 {
@@ -1235,7 +1241,7 @@ fn main() {
     }
     if args.case.is_none() {
         let mut rng = Rng::new(args.seed);
-        let n = args.n.unwrap_or(if args.thorough() { 12000 } else { 1500 });
+        let n = args.n.unwrap_or(if args.thorough() { 6000 } else { 150 });
         for i in 0..n {
             let mut r = rng.fork();
             let case = gen_case(&mut r, args.thorough());
